@@ -157,6 +157,8 @@ type explorer struct {
 	words, steps, interleaved, instObs, worlds atomic.Int64
 	shards                                     int64
 	stop                                       atomic.Bool
+	nonRepro, loneRepaired                     atomic.Int64
+	quiesce                                    sync.RWMutex // workers hold it shared per word; mismatch handling holds it exclusively
 	collisions                                 map[string]int64
 	outcomes                                   *fw.Counter
 	samples                                    *fw.Sampler
@@ -346,6 +348,11 @@ func (e *explorer) failed(c cfg, history [][]step, word []step) {
 	if try([][]step{word}) {
 		return
 	}
+	// Not reproduced alone. Were the memoised lone references (computed while other workers were running)
+	// themselves disturbed? Recompute them now that everything else is paused.
+	if e.repairLone(c, word) {
+		return
+	}
 	for q := len(history) - 1; q >= 0 && q >= len(history)-4000; q-- {
 		if try([][]step{history[q], word}) {
 			return
@@ -354,7 +361,46 @@ func (e *explorer) failed(c cfg, history [][]step, word []step) {
 	if try(append(append([][]step{}, history...), word)) {
 		return
 	}
-	fatalf("non-reproducible mismatch: cfg %s word {%s} after %d words in its world", c, wordString(word), len(history))
+	e.nonRepro.Add(1)
+	e.run.Note("non-reproducible mismatch: cfg %s word {%s} after %d words in its world", c, wordString(word), len(history))
+}
+
+// repairLone recomputes (quiesced) the memo entries that word's projections use; entries that differ are replaced.
+// A difference means that lone reference runs were disturbed by other runtimes running concurrently in the process:
+// process-wide shared state. That cannot be replayed as such; the deterministic witnesses are phase 0 and the
+// merged words of every configuration (judged quiesced). If neither produces a violation the run ends as a
+// harness error.
+func (e *explorer) repairLone(c cfg, word []step) (repaired bool) {
+	n := len(c.Variants)
+	proj := make([][]int, n)
+	for _, s := range word {
+		proj[s.I] = append(proj[s.I], s.Op)
+	}
+	for j := 0; j < n; j++ {
+		if len(proj[j]) > e.loneDepth {
+			continue
+		}
+		slot := j
+		if c.Shared {
+			slot = 0
+		}
+		k := loneKey{c.Engine, c.Variants[j], slot}
+		t := e.lone[k]
+		code := 0
+		for q, o := range proj[j] {
+			code = code*K + o
+			res, ob := runLone(k, e.dirs, proj[j][:q+1])
+			ent := &t.byLen[q+1][code]
+			d := digest(res, ob)
+			chunk := intern(ob.Stdout[min(len(ob.Stdout), t.stdoutLen(code/K, q)):])
+			if d != ent.dig || chunk != ent.chunk {
+				ent.dig, ent.chunk = d, chunk
+				repaired = true
+				e.loneRepaired.Add(1)
+			}
+		}
+	}
+	return
 }
 
 func singleActor(word []step) bool {
@@ -429,7 +475,7 @@ func (p plan) shards(pi int) []shard {
 // show; the number of explored words containing each pair is reported as evidence that the collisions happen.
 var collisionPairs = [][2]string{{"ddrop", "minit"}, {"edrop", "tinit"}, {"store", "store"}, {"store", "write"}, {"store", "bulk"}, {"store", "host"}, {"host", "host"}, {"exit", "host"},
 	{"grow", "grow"}, {"grow", "store"}, {"gset", "gset"}, {"tset", "tset"}, {"tgrow", "tgrow"}, {"tinit", "tset"}, {"open", "open"},
-	{"open", "close"}, {"open", "renumber"}, {"renumber", "open"}, {"close", "open"}, {"write", "write"}, {"entropy", "entropy"},
+	{"open", "close"}, {"open", "renumber"}, {"renumber", "open"}, {"close", "open"}, {"write", "write"}, {"ls", "ls"}, {"open", "ls"}, {"exit", "ls"},
 	{"exit", "store"}, {"exit", "write"}, {"exit", "minit"}, {"exit", "tinit"}, {"exit", "open"}}
 
 var collisionIdx = func() map[[2]int]string {
@@ -465,7 +511,10 @@ func (e *explorer) runShard(p plan, sh shard, sampleIt bool) (st shardStats) {
 		if len(word) == p.depth && p.depth > e.loneDepth && singleActor(word) && p.c.Policy == "lazy" {
 			return // identical to a lone run of a word longer than the reference table: nothing to compare
 		}
+		e.quiesce.RLock()
 		r := w.runWord(word)
+		matches := e.check(p.c, word, r)
+		e.quiesce.RUnlock()
 		st.words++
 		st.steps += int64(len(word))
 		var seen uint
@@ -506,10 +555,12 @@ func (e *explorer) runShard(p plan, sh shard, sampleIt bool) (st shardStats) {
 				st.instObs++
 			}
 		}
-		if e.check(p.c, word, r) {
+		if matches {
 			st.outcomes["word:matches-lone"]++
 		} else {
+			e.quiesce.Lock()
 			e.failed(p.c, history, append([]step{}, word...))
+			e.quiesce.Unlock()
 			// the world may be damaged: continue in a new one
 			w.close()
 			w = newWorld(p.c, e.dirs, -1)
@@ -714,7 +765,8 @@ func plans(thorough bool) []plan {
 		})
 	}
 	add(s, "cache-dir", same2, "lazy", false)
-	quickOnly(func() { add(s, "cache-dir", same2, "eager", false) })
+	// two runtimes with nothing in common (the weakest form; phase 0 covers it sequentially, this one as merged words)
+	add(s, "separate", same2, "lazy", false)
 	// one ModuleConfig value reused for every instance
 	for _, vs := range [][]int{same2, same3, diff2} {
 		add(s, "one", vs, "lazy", true)
@@ -806,6 +858,9 @@ func main() {
 		perPlan = append(perPlan, map[string]any{"cfg": p.c.String(), "depth": p.depth, "words": counts[pi]})
 	}
 	bounds["explore_wall_s"] = float64(int(time.Since(t1).Seconds()*100)) / 100
+	if (e.nonRepro.Load() > 0 || e.loneRepaired.Load() > 0) && run.Violations() == 0 {
+		fatalf("%d non-reproducible mismatches, %d disturbed lone references, and no reproducible violation", e.nonRepro.Load(), e.loneRepaired.Load())
+	}
 	bounds["alphabet_per_instance"] = opNames
 	bounds["plans"] = perPlan
 	bounds["lone_reference"] = map[string]any{"keys(engine,variant,slot)": len(keys), "max_word_length": ld, "fresh_world_runs": loneRuns.Load(), "wall_s": loneWall}
@@ -814,7 +869,7 @@ func main() {
 		Evaluations: e.words.Load(), DistinctNontriv: e.interleaved.Load(), States: e.words.Load(), Transitions: e.steps.Load(), TracesValidated: e.steps.Load(),
 		Rule:    "state = one merged word (history) per configuration, enumerated statelessly (instances cannot be forked, every word is executed from fresh instances); transition = one guest call on one instance; non-trivial = words in which at least two instances act",
 		Samples: e.samples.List(), Exhaustive: true, Outcomes: e.outcomes.Map(), Bounds: bounds,
-		Extra: map[string]any{"instance_observations_compared_with_lone": e.instObs.Load(), "phase0_separate_runtime_cases": p0cases, "words_with_cross_instance_collision_pair": e.collisions, "multi_worlds_built": e.worlds.Load(), "shards": e.shards, "lone_fresh_world_runs": loneRuns.Load()},
+		Extra: map[string]any{"instance_observations_compared_with_lone": e.instObs.Load(), "phase0_separate_runtime_cases": p0cases, "non_reproducible_mismatches": e.nonRepro.Load(), "lone_references_disturbed": e.loneRepaired.Load(), "words_with_cross_instance_collision_pair": e.collisions, "multi_worlds_built": e.worlds.Load(), "shards": e.shards, "lone_fresh_world_runs": loneRuns.Load()},
 	}, []string{
 		"the lone reference is an instance of the same module and slot configuration alone in a fresh runtime with a fresh compilation, one fresh world per reference word",
 		"merged words are enumerated up to renaming of interchangeable instances (same module); instantiation policies lazy/eager/eager-rev cover the instantiation orders that the renaming would drop; slots (temp directory, stdout buffer) are assumed interchangeable",
